@@ -211,7 +211,9 @@ def build_dag_case(spec, T):
     from flowpaths.utils import safetypathcovers as spc
     case = Case(spec)
     G = base_graph(spec)
-    st = fp.stDAG(G); g = Gr(st)
+    st = fp.stDAG(G, additional_starts=list(spec.get("starts", [])), additional_ends=list(spec.get("ends", []))); g = Gr(st)
+    if spec.get("starts") or spec.get("ends"):
+        case.dists.append("dag:additional_starts/ends")
     X = g.denorm(spec["X"]); cons = [g.denorm(c) for c in spec["constraints"]]
     edge_items = [[e] for e in X]
     walks, complete = enum_walks(st, max_rep=1, max_len=40, cap=20000)
@@ -322,17 +324,22 @@ def build_dag_case(spec, T):
 def build_dag_model(case, spec, G, mk, T):
     import flowpaths as fp
     opts = dict(mk["opts"])
+    kw = dict(optimization_options=opts, additional_starts=list(spec.get("starts", [])), additional_ends=list(spec.get("ends", [])))
+    subp = [[tuple(e) for e in c] for c in mk.get("subpaths", [])]
     try:
         if mk["cls"] == "kPathCover":
-            m = fp.kPathCover(G, k=mk["k"], subpath_constraints=[[tuple(e) for e in c] for c in mk.get("subpaths", [])],
-                              optimization_options=opts)
+            m = fp.kPathCover(G, k=mk["k"], subpath_constraints=subp, **kw)
+        elif mk["cls"] == "kFlowDecomp":
+            m = fp.kFlowDecomp(G, flow_attr="flow", k=mk["k"], optimization_options=opts)      # no additional starts/ends (spec has none)
         else:
-            m = fp.kFlowDecomp(G, flow_attr="flow", k=mk["k"], optimization_options=opts)
+            m = getattr(fp, mk["cls"])(G, flow_attr="flow", k=mk["k"], subpath_constraints=subp, **kw)
     except Exception as ex:
         case.counts["model_ctor_errors"] += 1
+        case.dists.append("model_ctor_error:" + type(ex).__name__ + ":" + str(ex)[:60])
         return
     g = Gr(m.G)
     case.counts["b_dag_models"] += 1
+    case.dists.append("model:" + mk["cls"])
     lists = [[tuple(e) for e in l] for l in (m.safe_lists or [])]
     flow_safe = mk["cls"] == "kFlowDecomp" and opts.get("optimize_with_flow_safe_paths")
     X = [tuple(e) for e in (m.trusted_edges_for_safety or [])]
@@ -632,9 +639,22 @@ def rand_flow_on(rng, G, walks=False, st=None):
 def gen_dag_spec(rng, i):
     import flowpaths as fp
     G = gen.rand_dag(rng, nmax=rng.choice([4, 5, 6, 7, 8]))
-    st = fp.stDAG(G); g = Gr(st)
+    starts = []; ends = []
+    if rng.random() < 0.4:
+        # extra start / end nodes: solution paths may begin / stop there, so the s-t graph gets extra source / sink edges
+        nodes = list(G.nodes())
+        inner = [v for v in nodes if G.in_degree(v) > 0 and G.out_degree(v) > 0] or nodes
+        pool_s = [v for v in nodes if G.in_degree(v) == 1] or inner        # favour nodes with a unique in-neighbour
+        pool_e = [v for v in nodes if G.out_degree(v) == 1] or inner
+        r2 = rng.random()
+        if r2 < 0.7:
+            starts = sorted(set(rng.choice(pool_s if rng.random() < 0.7 else nodes) for _ in range(rng.randint(1, 2))))
+        if r2 > 0.3:
+            ends = sorted(set(rng.choice(pool_e if rng.random() < 0.7 else nodes) for _ in range(rng.randint(1, 2))))
+    st = fp.stDAG(G, additional_starts=starts, additional_ends=ends); g = Gr(st)
     mode, X, cons = choose_X(rng, g, "dag")
     spec = {"kind": "dag", "edges": [list(e) for e in G.edges()], "nodes": list(G.nodes()), "xmode": mode,
+            "starts": starts, "ends": ends,
             "X": g.norm(X), "constraints": [g.norm(c) for c in cons],
             "perturb": [{"from": rng.choice(["seq", "path"]), "i": rng.randrange(100), "e": rng.randrange(100), "pos": rng.randrange(100)}
                         for _ in range(2)]}
@@ -646,11 +666,30 @@ def gen_dag_spec(rng, i):
                         {"optimize_with_safe_paths": False, "optimize_with_safe_sequences": True, "optimize_with_safety_from_largest_antichain": True}])
         base_cons = [[list(e) for e in c] for c in cons if all(e[0] != st.source and e[1] != st.sink for e in c)]
         spec["model"] = {"cls": "kPathCover", "k": rng.choice([1, 2, 3, 4]), "opts": o, "subpaths": base_cons if rng.random() < 0.6 else []}
-    elif r < 0.6:
+    elif r < 0.6 and not starts and not ends:
         f = rand_flow_on(rng, G)
         spec["edges"] = [[u, v, f.get((u, v), 0)] for u, v in G.edges()]
         spec["model"] = {"cls": "kFlowDecomp", "k": rng.choice([1, 2, 3]),
                          "opts": {"optimize_with_flow_safe_paths": True, "optimize_with_safe_paths": False, "optimize_with_greedy": False}}
+    elif r < 0.85:
+        # error models: flow = superposition of weighted routes of the s-t graph (they may begin / stop at the extra nodes)
+        f = collections.Counter()
+        for _ in range(rng.randint(1, 4)):
+            w = gen.rand_walk(rng, st, maxlen=30, srcs=[st.source], snks=[st.sink])
+            if w is None:
+                continue
+            wt = rng.randint(1, 6)
+            for e in gen.pairs(w[1:-1]):
+                f[e] += wt
+        for e in G.edges():
+            if f.get(e, 0) == 0 or rng.random() < 0.3:
+                f[e] += rng.randint(1, 3)
+        spec["edges"] = [[u, v, f.get((u, v), 0)] for u, v in G.edges()]
+        o = rng.choice([{}, {}, {"optimize_with_safe_paths": False, "optimize_with_safe_sequences": True},
+                        {"optimize_with_safety_as_subpath_constraints": True}])
+        base_cons = [[list(e) for e in c] for c in cons if all(e[0] != st.source and e[1] != st.sink for e in c)]
+        spec["model"] = {"cls": rng.choice(["kMinPathError", "kLeastAbsErrors"]), "k": rng.choice([1, 2, 3, 4]), "opts": o,
+                         "subpaths": base_cons if rng.random() < 0.4 else []}
     return spec
 
 
@@ -755,7 +794,8 @@ def guarded_build(ctx, kind, buildf, spec, T, limit=30.0):
 
 
 def run(ctx):
-    ctx.rule = ("case = one generated graph with one trusted set X: DAG stream (random DAG <= 8 nodes; X = all st-edges / base edges / "
+    ctx.rule = ("case = one generated graph with one trusted set X: DAG stream (random DAG <= 8 nodes, in ~40% of the cases with additional_starts / "
+                "additional_ends, the deciders running on the s-t graph with the extra source / sink edges; X = all st-edges / base edges / "
                 "random subset / edges of random subpath constraints), cyclic stream (random digraph or SCC gadgets self-loop, 2-cycle, "
                 "3-cycle, figure-eight, nested, 2-cycle+loop on a DAG skeleton with parallel inter-SCC edges, <= 8 nodes; 1-2 k-models with "
                 "safety options), flow stream (DAG with a superposition of 1-4 weighted paths, scaled by 2^j); non-trivial = DAG with >= 2 "
@@ -824,6 +864,7 @@ def replay(ctx, body):
         print("still failing:", col.hits)
         return True
     case.evaluate(ctx.model)
-    for what, detail, concrete, key in case.failures:
+    fails = [f for f in case.failures if not (f[3] is not None and ctx.open_finding(f[3]) is not None)]   # known findings do not count
+    for what, detail, concrete, key in fails:
         print("still failing:", what, detail)
-    return bool(case.failures)
+    return bool(fails)
